@@ -180,6 +180,9 @@ def build(cfg, force=False, verbose=False, repo=None):
                                  % (crate, seen.get(crate), floor, cfg), r.stderr[-2000:])
         with open(done, "w") as fh:
             json.dump(info, fh)
+        # which tree the artefacts in the shared target directory belong to (the compile-fail witnesses link against them)
+        with open(os.path.join(target, ".verif_tree"), "w") as fh:
+            fh.write(th)
         # keep the cache small: drop facts of other trees
         base = os.path.join(CACHE, "facts")
         for d in os.listdir(base):
